@@ -25,6 +25,9 @@ MAX_LANG = {"quick": 400, "thorough": 1500}
 MAX_WORK = {"quick": 40000, "thorough": 250000}
 FUEL = 100000000
 ROUND_CAP = 20000
+BANK_CAP = 6000
+TIME_CAP = 5.0
+CL_CAP = 1500          # values in the global cost list beyond which a run is cut (unaffordable for the differential run)
 
 show, of_prog, subterms, tsize = E.show, E.of_prog, E.subterms, E.tsize
 
@@ -292,19 +295,22 @@ class Limit(Exception):
     """raised inside the implementation's loop by the harness' instrumentation of _next_cheapest_"""
 
 
-def instrument(en, cost_bound, round_cap):
+def instrument(en, cost_bound, round_cap, cl_cap=None):
     """bound the run: stop when the cheapest queued cost exceeds cost_bound (every program of the finite
     language costs less) or after round_cap rounds"""
+    import time
     orig = en._next_cheapest_
-    st = {"rounds": 0, "over": 0}
+    st = {"rounds": 0, "over": 0, "t0": time.time()}
 
     def wrapped():
         nts, c = orig()
         st["rounds"] += 1
         if c is not None and cost_bound is not None and c > cost_bound:
             st["over"] += 1         # the enumerator is shown ONE cost above the bound (a repaired loop stops there)
-        if st["rounds"] > round_cap or st["over"] > 1:
+        if st["rounds"] > round_cap or st["over"] > 1 or len(en._cost_list) > (cl_cap or CL_CAP):
             raise Limit()
+        if st["rounds"] % 4 == 0 and (en.programs_in_banks() > BANK_CAP or time.time() - st["t0"] > TIME_CAP):
+            raise Limit()           # banks of a recursive grammar explode: unaffordable for the differential run
         return nts, c
     en._next_cheapest_ = wrapped
     return st
@@ -362,6 +368,8 @@ def run_script(en, plan, lang_progs, limit):
     except RecursionError:
         err = "RecursionError"
     except Exception as e:  # noqa: the exception class is the observable
+        if type(e).__name__ in ("CaseTimeout", "TimeoutError"):
+            raise               # the runner's wall-clock limit is not an observable of the implementation
         err = type(e).__name__
     return steps, script, err, cut, it
 
@@ -542,15 +550,17 @@ def run_case(case, M, tier="quick"):
     else:
         cost_bound = max(c for _, c in lang)
     # ---- first run: bounded by the cost of the most expensive program (+ round cap)
-    st = instrument(en, cost_bound, 5000 if cost_bound is None else ROUND_CAP)
+    maxar = max([len(args) for rs in g.rules.values() for args, _ in rs.values()] + [1])
+    cl_cap = min(CL_CAP, int((4 * MAX_WORK[tier]) ** (1.0 / maxar)) + 1)
+    st = instrument(en, cost_bound, 5000 if cost_bound is None else ROUND_CAP, cl_cap)
     steps, script, err, cut, it = run_script(en, plan, lang_progs, 4 * limit + 10)
     if rec:
         # no a-priori work estimate on a recursive grammar: halve the prefix until the run is affordable for the model
         pre = case["prefix"]
-        while pre > 3 and sum((len(en._cost_list) + 1) ** len(args) for rs in g.rules.values() for args, _ in rs.values()) > MAX_WORK[tier]:
+        while pre > 3 and (cut or sum((len(en._cost_list) + 1) ** len(args) for rs in g.rules.values() for args, _ in rs.values()) > MAX_WORK[tier]):
             pre //= 2
             en = fresh()
-            st = instrument(en, None, 5000)
+            st = instrument(en, None, 5000, cl_cap)
             plan = [("take", pre)]
             steps, script, err, cut, it = run_script(en, plan, lang_progs, 4 * limit + 10)
         out["prefix"] = pre
@@ -574,7 +584,9 @@ def run_case(case, M, tier="quick"):
                         yielded2.append(next(it2))
                     except StopIteration:
                         break
-    except Exception:  # noqa
+    except Exception as e:  # noqa
+        if type(e).__name__ in ("CaseTimeout", "TimeoutError"):
+            raise
         ok2 = False
     wire = Wire()
     gw = wire.cfg(g, cost)
